@@ -198,6 +198,20 @@ def run(ctx) -> Report:
         add(f"w[{k}]*w[{k}]", P(idx(w, k), idx(w, k)))
     add("w[i]*w[i]", mult(idx(w, i), idx(w, i)))
     add("w[0]*w[3]", P(idx(w, 0), idx(w, 3)))
+    # ---- nested mixed elements: a mixed sub-element that does not start at offset 0, and one that does ------------
+    for layout, tag in (([1, [3, 1]], "[P1, [P3, P1]]"), ([[3, 1], 2], "[[P3, P1], P2]"), ([1, [2, [3, 1]], 1], "[P1, [P2, [P3, P1]], P1]")):
+        def build(l):
+            if isinstance(l, int):
+                return element(l), [l]
+            parts = [build(x) for x in l]
+            leaves = [d for _, ds in parts for d in ds]
+            return element(max(leaves), (len(leaves),), "IdentityPullback", [e for e, _ in parts]), leaves
+
+        nel, leaves = build(layout)
+        wn = form_arg("wn" + str(len(cases)), nel, dom, (len(leaves),), lambda c, leaves=leaves: leaves[c[0]])
+        for k in range(len(leaves)):
+            add(f"w[{k}] (nested mixed {tag}: leaf degree {leaves[k]})", idx(wn, k))
+            add(f"w[{k}]*w[{k}] (nested mixed {tag})", P(idx(wn, k), idx(wn, k)))
     # ---- element with subdegree < superdegree inside a mixed element ---------------------------------
     mini = element(3, (), "IdentityPullback", (), sub=1)
     mixed2 = element(3, (2,), "IdentityPullback", [mini, element(1)])
